@@ -220,7 +220,7 @@ Definition widths_site (items : list witem) : res (N * N) := widths_go items 0 0
 Definition crypt_key_size (v r bits : N) (cf : option (N * option N)) : res N :=
   do key_bits <-
     (if v =? 1 then Ok crypt_v1_bits
-     else if v =? 2 then (if bits mod crypt_bits_mod =? 0 then Ok bits else Err E_NUM)
+     else if v =? 2 then (if bits mod sf_crypt_bits_mod =? 0 then Ok bits else Err E_NUM)
      else if (4 <=? v) && (v <=? 6) then
        match cf with
        | None => Err E_NUM
@@ -253,7 +253,7 @@ Fixpoint page_limited (depth : nat) (kids : list pnode) (page_nr : N) {struct de
            else loop t hi
        end) kids 0
   end.
-Definition page_site (kids : list pnode) (page_nr : N) : res unit := page_limited (N.to_nat page_depth) kids page_nr.
+Definition page_site (kids : list pnode) (page_nr : N) : res unit := page_limited (N.to_nat sf_page_depth) kids page_nr.
 
 (* ---- enc.rs: fax_decode geometry ------------------------------------------------------------- *)
 (* Vec::with_capacity(columns * rows): "capacity overflow" above isize::MAX *)
